@@ -61,7 +61,7 @@ class C12(PropBase):
                 b(r["res"] == 0), r["calc"], r["ctrl"], b(r["rel"] == 1), b(r["ref"] == 0), fbits(r["thr"]), r["warm"],
                 r["cold"], r["maxq"], r["stat"], r["lowmem"], r["highmem"], r["lowwater"], r["highwater"])
         elif f == 1:
-            t = "RHot (mkHotR %s %s (%d)%%Z %s %d)" % (b(r["res"] == 0), b(r["metric"] == 1), r["idx"], b(r["key"] == 1), r["dur"])
+            t = "RHot (mkHotR %s %s (%d)%%Z %s %d)" % (b(r["res"] == 0), b(r["metric"] == 1), r["idx"], b(r["key"] != 0), r["dur"])
         elif f == 2:
             t = "RCb (mkCbR %s %d %d %d %s)" % (b(r["res"] == 0), r["strategy"], r["retry"], r["interval"], fbits(r["thr"]))
         elif f == 3:
